@@ -52,9 +52,9 @@ Proof.
   split; [apply spec_header_b_sound; vm_compute; reflexivity|].
   split; [left; reflexivity|].
   split; [unfold ex_ps, ex_extra, ex_ps'; apply il_r, il_l, il_r, il_l, il_nil|].
-  split; [repeat constructor; (apply spec_key_iff || apply spec_val_iff); vm_compute; reflexivity|].
-  split; [repeat constructor; cbn; intuition discriminate|].
-  split; [cbn; intros k [<-|[<-|[]]]; intuition discriminate|].
+  split; [apply spec_pairs_b_sound; vm_compute; reflexivity|].
+  split; [apply nodup_b_sound; vm_compute; reflexivity|].
+  split; [apply disjoint_b_sound; vm_compute; reflexivity|].
   vm_compute. reflexivity.
 Qed.
 
